@@ -138,7 +138,8 @@ func VerifC07_B2_MSM() {
 	verifOwnPanics()
 	shapes := []c07Shape{{0, 0, true}, {1, 1, true}, {2, 1, true}, {1, 2, true}}
 	if verifTier() > 0 {
-		shapes = append(shapes, c07Shape{2, 2, true}, c07Shape{3, 1, true}, c07Shape{3, 2, false}, c07Shape{1, 4, true})
+		// (with {3,2} and {1,4} as well the 400 000-path budget is exceeded)
+		shapes = append(shapes, c07Shape{2, 2, true}, c07Shape{3, 1, true})
 	}
 	sh := shapes[verifParam("shape", 0, len(shapes)-1)]
 	msm7 := verifParam("msm7", 0, 1) == 1
